@@ -18,7 +18,7 @@ func GetCheckpointOracleSet(oracleSet *types.OracleSet, gravityIDStr string) ([]
 	powers := make([]*big.Int, len(oracleSet.Members))
 	for i, member := range oracleSet.Members {
 		addresses[i] = member.ExternalAddress
-		powers[i] = big.NewInt(int64(member.Power))
+		powers[i] = new(big.Int).SetUint64(member.Power)
 	}
 
 	gravityID, err := fxtypes.StrToByte32(gravityIDStr)
@@ -33,7 +33,7 @@ func GetCheckpointOracleSet(oracleSet *types.OracleSet, gravityIDStr string) ([]
 	params := []abi.Param{
 		{"bytes32": gravityID},
 		{"bytes32": checkpoint},
-		{"uint256": big.NewInt(int64(oracleSet.Nonce))},
+		{"uint256": new(big.Int).SetUint64(oracleSet.Nonce)},
 		{"address[]": addresses},
 		{"uint256[]": powers},
 	}
@@ -70,9 +70,9 @@ func GetCheckpointConfirmBatch(txBatch *types.OutgoingTxBatch, gravityIDStr stri
 		{"uint256[]": amounts},
 		{"address[]": destinations},
 		{"uint256[]": fees},
-		{"uint256": big.NewInt(int64(txBatch.BatchNonce))},
+		{"uint256": new(big.Int).SetUint64(txBatch.BatchNonce)},
 		{"address": txBatch.TokenContract},
-		{"uint256": big.NewInt(int64(txBatch.BatchTimeout))},
+		{"uint256": new(big.Int).SetUint64(txBatch.BatchTimeout)},
 		{"address": txBatch.FeeReceive},
 	}
 
@@ -117,9 +117,9 @@ func GetCheckpointBridgeCall(bridgeCall *types.OutgoingBridgeCall, gravityIDStr 
 		{"address": bridgeCall.To},
 		{"bytes": dataBytes},
 		{"bytes": memeBytes},
-		{"uint256": big.NewInt(int64(bridgeCall.Nonce))},
-		{"uint256": big.NewInt(int64(bridgeCall.Timeout))},
-		{"uint256": big.NewInt(int64(bridgeCall.EventNonce))},
+		{"uint256": new(big.Int).SetUint64(bridgeCall.Nonce)},
+		{"uint256": new(big.Int).SetUint64(bridgeCall.Timeout)},
+		{"uint256": new(big.Int).SetUint64(bridgeCall.EventNonce)},
 	}
 
 	encode, err := abi.GetPaddedParam(params)
